@@ -16,6 +16,7 @@ import (
 
 type commandExecutor struct {
 	cmd  *exec.Cmd
+	ctx  context.Context
 	lock sync.Mutex
 }
 
@@ -45,6 +46,7 @@ func newCommand(ctx context.Context, step dag.Step) (Executor, error) {
 
 	return &commandExecutor{
 		cmd: cmd,
+		ctx: ctx,
 	}, nil
 }
 
@@ -56,6 +58,18 @@ func (e *commandExecutor) Run() error {
 	if err != nil {
 		return err
 	}
+	// When the context ends (the DAG's timeout, a cancel) kill the whole
+	// process group, not only the direct child: a grandchild that keeps the
+	// output pipe open would otherwise keep the step, and the run, alive.
+	waited := make(chan struct{})
+	defer close(waited)
+	go func() {
+		select {
+		case <-e.ctx.Done():
+			_ = syscall.Kill(-e.cmd.Process.Pid, syscall.SIGKILL)
+		case <-waited:
+		}
+	}()
 	return e.cmd.Wait()
 }
 
